@@ -285,6 +285,45 @@ impl Prog {
         json!({"n_vars": self.n_vars, "listing": self.listing()})
     }
 
+    /// Inverse of `to_json` (constants are read from their bit patterns)
+    pub fn from_json(v: &Value) -> Option<Prog> {
+        let n_vars = v["n_vars"].as_u64()? as usize;
+        let mut nodes = vec![];
+        let mut outputs = vec![];
+        let idx = |s: &str| -> Option<u32> { s.trim().strip_prefix('n')?.parse().ok() };
+        for line in v["listing"].as_array()? {
+            let line = line.as_str()?;
+            if let Some(rest) = line.strip_prefix("outputs = [") {
+                for o in rest.trim_end_matches(']').split(',') {
+                    if !o.trim().is_empty() {
+                        outputs.push(idx(o)?);
+                    }
+                }
+                continue;
+            }
+            let (_, rhs) = line.split_once(" = ")?;
+            let w: Vec<&str> = rhs.split_whitespace().collect();
+            let node = match w[0] {
+                "var" => PNode::Var(w[1].parse().ok()?),
+                "const" => {
+                    let hex = w.last()?.trim_start_matches("(0x").trim_end_matches(')');
+                    PNode::Const(f32::from_bits(u32::from_str_radix(hex, 16).ok()?))
+                }
+                name => {
+                    if w.len() == 2 {
+                        let o = UNS.iter().find(|o| o.name() == name)?;
+                        PNode::Un(*o, idx(w[1])?)
+                    } else {
+                        let o = BINS.iter().find(|o| o.name() == name)?;
+                        PNode::Bin(*o, idx(w[1])?, idx(w[2])?)
+                    }
+                }
+            };
+            nodes.push(node);
+        }
+        Some(Prog { nodes, n_vars, outputs })
+    }
+
     pub fn hash(&self) -> u64 {
         let mut v = vec![self.n_vars as u64];
         for n in &self.nodes {
